@@ -467,6 +467,31 @@ func consumers(c *harness.Ctx, rng *rand.Rand, dir string, s desync.Store, blob 
 		c.Violation("consumer-cat", "reading through the index: err=%v, %d bytes emitted, correct prefix=%v", err, buf.Len(), bytes.HasPrefix(blob, buf.Bytes()))
 		return
 	}
+	// a reader that survives the error and is used again (a mount handle does): re-issued reads at the same place,
+	// reads after stepping back and forth; whatever is returned without error must be the blob's bytes at that place
+	at := int64(buf.Len())
+	for k := 0; k < 6; k++ {
+		var want int64
+		switch k % 3 {
+		case 0:
+			want = at
+		case 1:
+			want = at / 2
+		case 2:
+			want = at + int64(rng.Intn(len(blob)-int(at)+1))
+		}
+		got, serr := ip.Seek(want, io.SeekStart)
+		if serr != nil || got != want {
+			continue
+		}
+		p := make([]byte, 1+rng.Intn(3000))
+		n, rerr := ip.Read(p)
+		if n > 0 && (want+int64(n) > int64(len(blob)) || !bytes.Equal(p[:n], blob[want:want+int64(n)])) {
+			c.Violation("consumer-cat-retry", "a reader that had failed on the poisoned chunk was used again: Read at %d returned %d bytes (err %v) that are not the blob's bytes there", want, n, rerr)
+			return
+		}
+		c.Count("reads_after_failure", 1)
+	}
 	// untar -i
 	dst := filepath.Join(dir, "untar.dst")
 	os.MkdirAll(dst, 0755)
@@ -497,8 +522,19 @@ func consumers(c *harness.Ctx, rng *rand.Rand, dir string, s desync.Store, blob 
 		for pos < uint64(len(blob)) {
 			b, st := ff.Read(fh, pos, 700)
 			if st != 0 {
+				if failed && rng.Intn(2) == 0 {
+					pos += 700 // give up on this range, go on behind it with the same handle
+					continue
+				}
 				failed = true
-				break
+				for r := 0; r < 2; r++ { // the application retries the read on the same handle
+					if b2, st2 := ff.Read(fh, pos, 700); st2 == 0 && !bytes.Equal(b2, blob[pos:min(int(pos)+700, len(blob))]) {
+						c.Violation("consumer-mount-retry", "index mount: the re-issued read at %d (after EIO) returned bytes that differ from the blob", pos)
+						return
+					}
+				}
+				pos += 700
+				continue
 			}
 			if !bytes.Equal(b, blob[pos:min(int(pos)+700, len(blob))]) {
 				c.Violation("consumer-mount", "index mount read at %d returned bytes that differ from the blob", pos)
